@@ -40,7 +40,9 @@ CONSTANTS DevTarballSkipped,      \* D11: agent input stager drops TARBALL befor
           DevClientSkipsOnError,  \* client output stager ignores stage_on_error
           DevCopyUnquoted,        \* cp command line built by interpolation: a name with a space is split
           DevDirTestInCwd,        \* agent input: "target is an existing folder" tested in the working directory
-          Scope,                  \* "single" | "pairs" | "hostile" | "all" | "given" (trace monitor)
+          DevSlashDropped,        \* complete_url loses the trailing slash of a directory target
+          DevLinkNoDirTarget,     \* os.link(src, "dir/") is an error: LINK cannot take a directory target
+          Scope,                  \* "single" | "pairs" | "hostile" | "dev" | "all" | "given" (trace monitor)
           Emit                    \* print every case (the rig's enumerator)
 
 VARIABLES inp, E, fs, nx, log, tar, st, passedIn, stage, snap
@@ -102,13 +104,26 @@ DefaultLoc(side, role, t) ==
 
 \* x: [k, p], sp: the source path (an empty or existing-directory target
 \* receives the basename of the source)
+\* Three kinds of target: default (omitted / empty: the source's basename),
+\* a file name, and a DIRECTORY, written with a trailing slash ("inputs/",
+\* "task:///local/", "pilot:///shared/", an absolute "/x/dir/").  Neither
+\* expand_staging_directives nor complete_url touch the slash
+\* (complete_url: ret.path += "/" + purl.path), so the stager is handed
+\* "<location>/<dir>/": the directory is created on demand (mkdir of the
+\* dirname, which for ".../dir/" is the directory itself) and the data ends
+\* up at <dir>/<basename(source)> - never as a plain file named like the
+\* directory - whether or not the directory existed before.
+DirTP     == {"d/", "e/"}        \* d: does not exist yet, e: exists in every non-task location
+IsDirP(p) == p \in DirTP
+InDir(p, sp) == IF IsDirP(p) THEN p \o Base(sp) ELSE p
+
 KeyOf(side, role, x, sp, t) ==
-  CASE x.k = "rel"    -> <<DefaultLoc(side, role, t), x.p>>
+  CASE x.k = "rel"    -> <<DefaultLoc(side, role, t), InDir(x.p, sp)>>
     [] x.k = "empty"  -> <<DefaultLoc(side, role, t), Base(sp)>>
-    [] x.k = "abs"    -> <<"endpoint", x.p>>
+    [] x.k = "abs"    -> <<"endpoint", InDir(x.p, sp)>>
     [] x.k = "absdir" -> <<"endpoint", "dd/" \o Base(sp)>>
-    [] x.k = "task"   -> <<TaskLoc(t), x.p>>
-    [] OTHER          -> <<x.k, x.p>>
+    [] x.k = "task"   -> <<TaskLoc(t), InDir(x.p, sp)>>
+    [] OTHER          -> <<x.k, InDir(x.p, sp)>>
 
 SrcKey(side, n, t) == KeyOf(side, "s", n.s, n.s.p, t)
 TgtKey(side, n, t) == KeyOf(side, "t", n.t, n.s.p, t)
@@ -147,8 +162,9 @@ DoCopy(M, id, sk, tk) ==
                  !.log = Append(@, Entry(id, "copy", sk, tk, M.fs[sk].c))]
 
 \* os.link: same file under a second name; an existing target is an error
-DoLink(M, id, sk, tk) ==
-  IF Has(M.fs, sk) /\ ~Has(M.fs, tk)
+DoLink(M, id, sk, tk, nolink) ==
+  IF nolink /\ Has(M.fs, sk) THEN Missed(M, id, sk, tk, "dirtarget", FALSE)
+  ELSE IF Has(M.fs, sk) /\ ~Has(M.fs, tk)
   THEN [M EXCEPT !.fs  = Put(@, tk, M.fs[sk]),
                  !.log = Append(@, Entry(id, "link", sk, tk, M.fs[sk].c))]
   ELSE Missed(M, id, sk, tk, IF Has(M.fs, sk) THEN "exists" ELSE "nosource", FALSE)
@@ -160,9 +176,13 @@ DoMove(M, id, sk, tk) ==
                  !.log = Append(@, Entry(id, "move", sk, tk, M.fs[sk].c))]
   ELSE Missed(M, id, sk, tk, "nosource", FALSE)
 
-Do(M, id, act, sk, tk) ==
+\* nolink (deviation): the target was written as a directory, and it is not
+\* the absolute existing one which the stager's "is a folder" fix-up handles
+NoLink(n) == DevLinkNoDirTarget /\ IsDirP(n.t.p) /\ ~(n.t.k = "abs" /\ n.t.p = "e/")
+
+Do(M, id, act, sk, tk, nolink) ==
   CASE act \in {"TRANSFER", "COPY"} -> DoCopy(M, id, sk, tk)
-    [] act = "LINK"                 -> DoLink(M, id, sk, tk)
+    [] act = "LINK"                 -> DoLink(M, id, sk, tk, nolink)
     [] act = "MOVE"                 -> DoMove(M, id, sk, tk)
 
 \* the directives of list ns which `side` acts on, in list order; stops at
@@ -173,7 +193,7 @@ RunActs(M, ns, j, t, dir, side) ==
   ELSE LET n == ns[j] IN
        IF n.act = "TARBALL" \/ SideOf(dir, n.act) # side
        THEN RunActs(M, ns, j + 1, t, dir, side)
-       ELSE RunActs(Do(M, <<t, dir, j>>, n.act, SrcKey(side, n, t), TgtKey(side, n, t)),
+       ELSE RunActs(Do(M, <<t, dir, j>>, n.act, SrcKey(side, n, t), TgtKey(side, n, t), NoLink(n)),
                     ns, j + 1, t, dir, side)
 
 \* client side, first loop of _handle_task: every TARBALL source is added to
@@ -279,10 +299,23 @@ Outcomes2 == {[oc |-> "DONE", soe |-> FALSE], [oc |-> "FAILED", soe |-> FALSE],
 Case(di, do, x) == [din |-> di, dout |-> do, oc |-> x.oc, soe |-> x.soe]
 Ok1 == [oc |-> "DONE", soe |-> FALSE]
 
+\* directory targets (trailing slash), both directions, client side TRANSFER
+\* in dict and short form, agent side COPY / LINK / MOVE
+InDirSingles ==
+       Rec({"dict"}, {"TRANSFER"}, {"rel", "client"}, {"s/a", "m"}, AnyK, DirTP)
+  \cup Rec(Short, {"TRANSFER"}, {"rel"}, {"s/a"}, {"rel", "task", "pilot", "abs"}, DirTP)
+  \cup Rec({"dict"}, CLM, {"pilot", "abs"}, {"s/a", "m"}, {"rel"} \cup AgentK, DirTP)
+OutDirSingles ==
+       Rec({"dict"}, {"TRANSFER"}, {"rel", "task"}, {"s/o", "m"}, AnyK, DirTP)
+  \cup Rec(Short, {"TRANSFER"}, {"rel"}, {"s/o"}, {"rel", "client", "abs"}, DirTP)
+  \cup Rec({"dict"}, CLM, {"rel"}, {"s/o", "m"}, AgentK, DirTP)
+Outcomes3 == {Ok1, [oc |-> "FAILED", soe |-> FALSE], [oc |-> "CANCELED", soe |-> FALSE]}
+
 SingleCases ==
-       {Case(<<d>>, <<>>, Ok1) : d \in InSingles}
-  \cup {Case(<<>>, <<d>>, x) : d \in {e \in OutSingles : e.form = "dict"}, x \in Outcomes}
-  \cup {Case(<<>>, <<d>>, x) : d \in {e \in OutSingles : e.form # "dict"}, x \in Outcomes2}
+       {Case(<<d>>, <<>>, Ok1) : d \in InSingles \cup InDirSingles}
+  \cup {Case(<<>>, <<d>>, x) : d \in OutDirSingles, x \in Outcomes3}
+  \cup {Case(<<>>, <<d>>, x) : d \in {e \in OutSingles : e.form = "dict" /\ e.tp # "t/b"}, x \in Outcomes}
+  \cup {Case(<<>>, <<d>>, x) : d \in {e \in OutSingles : e.form # "dict" \/ e.tp = "t/b"}, x \in Outcomes2}
   \cup {Case(<<>>, <<>>, x) : x \in Outcomes}
 
 PairCases ==
@@ -331,9 +364,17 @@ WellFormed(c) ==
                     /\ \A y \in sks : (y[1] = x[1] /\ y[2] = x[2]) => y[3] # x[3]
                     /\ \A y \in tks : (y[1] # x[1] \/ y[2] # x[2]) => y[3] # x[3]
 
+\* a small scope in which every deviation constant shows
+DevCases ==
+       {Case(<<d>>, <<>>, Ok1) : d \in CoreIn \cup {e \in InDirSingles : e.tk \in {"rel", "pilot"}}
+                                           \cup Rec({"dict"}, CLM, {"pilot"}, {"a"}, {"relcwddir"}, {"b"})}
+  \cup {Case(<<>>, <<d>>, x) : d \in CoreOut, x \in Outcomes}
+  \cup HostileCases
+
 Cases ==
   CASE Scope = "single" -> {c \in SingleCases : WellFormed(c)}
     [] Scope = "pairs"  -> {c \in PairCases   : WellFormed(c)}
+    [] Scope = "dev"    -> {c \in DevCases : WellFormed(c)}
     [] Scope = "hostile" -> {c \in HostileCases : WellFormed(c)}
     [] Scope = "all"    -> {c \in SingleCases \cup PairCases \cup HostileCases : WellFormed(c)}
     [] OTHER            -> {}
@@ -353,6 +394,8 @@ RawOf(t) == IF t = "A" THEN [din |-> inp.din, dout |-> inp.dout] ELSE [din |-> B
 NormCode(d) ==
   IF DevDirTestInCwd /\ d.tk = "relcwddir" /\ d.act \in CLM
   THEN [Norm(d) EXCEPT !.t = [k |-> "rel", p |-> d.tp \o "/" \o Base(d.sp)]]
+  ELSE IF DevSlashDropped /\ d.tp = "d/"      \* the target becomes a plain file named like the directory
+  THEN [Norm(d) EXCEPT !.t.p = "d"]
   ELSE Norm(d)
 
 Oc(t)  == IF t = "A" THEN inp.oc ELSE "DONE"
@@ -385,7 +428,7 @@ ForBoth(F(_, _)) ==
 Expand ==
   /\ stage = "new" /\ stage' = "expanded"
   /\ E' = [t \in Tasks |-> [din  |-> [j \in 1 .. Len(RawOf(t).din) |-> NormCode(RawOf(t).din[j])],
-                           dout |-> NormList(RawOf(t).dout)]]
+                           dout |-> [j \in 1 .. Len(RawOf(t).dout) |-> NormCode(RawOf(t).dout[j])]]]
   /\ UNCHANGED <<inp, fs, nx, log, tar, st, passedIn, snap>>
 
 TIn ==
